@@ -22,6 +22,7 @@ RULE = (
     "(trace invariant), gate/target overlap is checked per step and per in-flight set, and flat acyclic programs whose gates are closed or "
     "runnable no later than their targets are compared with a direct branch model. Non-trivial = some decision excluded a target whose data "
     "inputs were available; distinct = digest of (program shape, inputs, decisions taken, completion order)."
+    ' Also varied: END anywhere in the declared target list or as the true branch of an if/else gate, fallback outside the declared targets, multi-target gates inside loops, gates built through @route/@ifelse decorators, explicit edges= that mirror the inferred topology.'
 )
 ASSUMPTIONS = ["gate decision functions are pure functions of their arguments, so the harness knows every decision from the history", "no caching here (cached gates are C09/C12)"]
 
